@@ -65,11 +65,11 @@ type writePlan struct {
 // delayCfg makes datastore calls pause at pseudo-randomly chosen call indices
 // (= a pre-emption inside the critical sections of the layers above).
 type delayCfg struct {
-	seed   uint64
-	n      atomic.Uint64
-	num    uint64 // a call pauses with probability num/16
-	maxUS  int    // longest sleep in microseconds
-	slowEnum bool // also pause between entries of an enumeration
+	seed     uint64
+	n        atomic.Uint64
+	num      uint64 // a call pauses with probability num/16
+	maxUS    int    // longest sleep in microseconds
+	slowEnum bool   // also pause between entries of an enumeration
 }
 
 func mix(x uint64) uint64 {
